@@ -668,6 +668,7 @@ class Flags:
         self.bare_ann = False
         self.walrus_in_comp = False
         self.walrus_in_genexp = False
+        self.own_name_local = False
         self.tags = False
         self.unbound_reads = True
         self.finally_return = True
@@ -835,6 +836,8 @@ def functions(flags=None, want_gen=None):
                     if star in pnames and star not in taken:
                         pool.append(star)
             v = draw(st.sampled_from(pool or ["a"]))
+            if fl.own_name_local and "f" not in taken and draw(st.integers(0, 39)) == 0:
+                v = "f"  # a local variable that has the name of the function itself
             taken.append(v)
             return ("n", v)
 
